@@ -144,6 +144,17 @@ def check_queries(ctx, srcs, what: str, expect_index_error=None, pack_check=None
                 text = ast.unparse(out)
                 compile(ast.fix_missing_locations(ast.Expression(copy.deepcopy(out))), "<simplified>", "eval")
                 parse_expr(text)
+                # the text must be the text of THE tree: ast.unparse keeps its parenthesisation state per node object, so a
+                # node object standing in two places can lose its parentheses; compare with the text of a rebuilt tree
+                # (every position its own node)
+                from astcodec import dec_text
+
+                rebuilt = ast.unparse(dec_text(enc(out)))
+                if rebuilt != text:
+                    ctx.violate({"src": src, "unparse": text[:300], "unparse_of_rebuilt_tree": rebuilt[:300]},
+                                "C18: ast.unparse of the simplified AST is not the text of the tree (a node object is shared between positions)")
+            except Unsupported:
+                pass
             except Exception as e:
                 ctx.violate({"src": src, "error": f"{type(e).__name__}: {e}"[:200]}, "C18: the simplified AST cannot be unparsed and compiled")
             if pack_check is not None:
